@@ -258,7 +258,34 @@ func isNilable(t types.Type) bool {
 }
 
 // FuncName is the canonical short name of a function.
-func FuncName(f *ssa.Function) string { return Short(f.String()) }
+func FuncName(f *ssa.Function) string {
+	if a, ok := Alias[f]; ok {
+		return a
+	}
+	if par := f.Parent(); par != nil {
+		// closures are named after their (possibly aliased) parent
+		if _, aliased := Alias[rootParent(f)]; aliased {
+			for i, af := range par.AnonFuncs {
+				if af == f {
+					return FuncName(par) + "$" + strconv.Itoa(i+1)
+				}
+			}
+		}
+	}
+	return Short(f.String())
+}
+
+func rootParent(f *ssa.Function) *ssa.Function {
+	for f.Parent() != nil {
+		f = f.Parent()
+	}
+	return f
+}
+
+// Alias maps a renamed unexported function to the canonical (frozen) name under which the rules
+// know it; filled by the loader when a frozen anchor name is missing and exactly one function of
+// the same package, receiver and signature has an unknown name.
+var Alias = map[*ssa.Function]string{}
 
 func binopName(op token.Token) string {
 	switch op {
